@@ -73,3 +73,31 @@ def fails_from(pf, tree, sigfn, extra=None):
             w.update(extra or {})
             out.append((sigfn(c, e, pre), w))
     return out
+
+
+def audit_followup(ad, t, module, constants, sigfn, extra=None, tag="audit"):
+    """The dedup audit found merged states that behave differently.  Judge the diverging continuations as explicit chains;
+    returns their failing clauses.  (If nothing fails anywhere, the caller reports a machinery failure: the projection hides state.)"""
+    chains = []
+    for path in t.get("witnesses", []):
+        w = ad.make()
+        chain = []
+        for a in path:
+            obs = ad.apply(w, a)
+            chain.append({"act": a, "obs": obs, "post": ad.project(w)})
+        chains.append(chain)
+    if not chains:
+        return []
+    tree = explore.chains_to_tree(chains)
+    tree["header"]["root"] = ad.project(ad.make())
+    r, pf, dr = walk_tree(module, tree, constants, tag)
+    ex = {"from": "dedup-audit witness"}
+    ex.update(extra or {})
+    return fails_from(pf, tree, sigfn, ex)
+
+
+def settle_audit(results):
+    """results: list of dicts with keys audit, fails.  Audit discrepancies are tolerated only when violations explain them."""
+    bad = [x for x in results if x.get("audit")]
+    if bad and not any(x["fails"] for x in results):
+        raise base.MachineryError("dedup audit failed and no clause is violated: the projection hides state: %s" % bad[0]["audit"])
